@@ -128,6 +128,7 @@ var yieldPatterns = []string{"0", "0", "1", "2", "3", "10", "01", "1000", "0002"
 
 func genSched(t *rapid.T, g int) Sched {
 	s := Sched{Release: "barrier"}
+	s.SlowGraph = []int{0, 0, 1, 2, 2, 3}[uni(t, 6, "slow_graph")]
 	switch uni(t, 6, "release") {
 	case 0, 1:
 		s.Release = "spin"
